@@ -63,6 +63,15 @@ Theorem C09_optimize_order_irrelevant : forall fuse neg g g',
 Proof. exact optimize_order_irrelevant. Qed.
 Print Assumptions C09_optimize_order_irrelevant.
 
+(* the same with the natural hypotheses: the rules entering the optimizer have distinct ids and
+   fusion keeps the id of the first member of its group (`base_filter.clone()` in optimizer.rs) *)
+Theorem C09_optimize_order_irrelevant_ids : forall fuse,
+  (forall x rest, r_id (fuse (x :: rest)) = r_id x) ->
+  forall neg g g', Permutation g g' -> NoDup (map r_id (neg ++ List.concat g)) ->
+  optimize_from fuse neg g = optimize_from fuse neg g'.
+Proof. exact optimize_order_irrelevant'. Qed.
+Print Assumptions C09_optimize_order_irrelevant_ids.
+
 Theorem C09_optimize_bucket_order_irrelevant : forall fuse shared split (o1 o2 : list (list rule) -> list (list rule)) b,
   (forall g, Permutation (o1 g) g) -> (forall g, Permutation (o2 g) g) ->
   (let own := filter (fun r => negb (shared r)) b in
